@@ -2,6 +2,7 @@
 import re
 import numpy as np
 from .. import cases
+from .. import rootgen
 
 COQCHK = 'C18'   # Reals-only cone (no Coquelicot): coqchk -o takes under a minute (thorough tier)
 
@@ -257,14 +258,26 @@ def search(ctx, n, nmax):
 
 def run(ctx):
     quick = ctx.tier == 'quick'
+    # second tie: regenerate the model text from the AST of copulas/optimize/__init__.py (statement by statement, fail
+    # closed); Props/C18.v proves every generated definition equal to the hand-written model for every arithmetic instance
+    status, facts = rootgen.generate(ctx)
+    for name in sorted(status):
+        ctx.obligation(f'translate:{name}', status[name] is None, 'translation', status[name] or '')
+    ctx.extra['rootgen'] = {'generated_file': 'Gen_rootfind.v', 'definitions': sorted(status), 'facts': facts,
+                            'not_translated': {k: v for k, v in status.items() if v}}
+    ctx.rule('translation: bisect / chandrupatla (array and scalar branch) are symbolically executed per lane from the AST; '
+             'operators, operand order, constants, masks, np.choose alternatives, loop bounds and initial values come from the '
+             'source text; bridges C18_bridge_* prove generated = model for every arithmetic instance')
     ctx.copy_src('Props/C18.v')
-    ctx.compile(['C18.v'])
+    ctx.compile(['Gen_rootfind.v', 'C18.v'])
     ctx.rule('correspondence: random batches (1..6 lanes quick / up to 1000 thorough) of lanes from {linear, cubic with flat root, saturating, cubic+linear} with '
              'slopes over 12 orders of magnitude, roots at bracket ends, 4% invalid brackets, maxiter in {1,2,3,5,10,50}, tol in {1e-8,1e-3,1e-12}; '
              'the PrimFloat instance of Model.RootFind evaluated by vm_compute must equal copulas.optimize bit for bit (results, final brackets, iteration count, rejection)')
     corr(ctx, 40 if quick else 500, 6 if quick else 60)
     ctx.extra['witness_search_hits'] = search(ctx, 60 if quick else 1500, 8 if quick else 200)
-    ctx.trusted += ['Model.RootFind is hand-written; tied to copulas.optimize by bit-exact differential execution of its PrimFloat instance',
+    ctx.trusted += ['Model.RootFind is hand-written; tied to copulas.optimize by bit-exact differential execution of its PrimFloat instance '
+                    'AND by the bridges from the AST-generated Gen_rootfind.v (tools/vf/rootgen.py: the mapping of numpy primitives '
+                    '(masked store, np.choose, np.clip, .max(), .all()) to the arithmetic record and the loop skeletons are trusted)',
                     'theorems are proved for the real-number instance RA of the same generic code; float rounding is the gap',
                     'PrimFloat primitives (kernel floats) as listed by Print Assumptions']
     ctx.assumptions += ['lane functions are restricted to four algebraic families so that model and numpy perform the identical IEEE operations',
